@@ -669,6 +669,7 @@ func buildPreservationSet(files []parsedFile, cfg *Config) *preservationSet {
 		for _, expr := range files[i].exprs {
 			collectProtectedMacroTemplateSymbols(expr, files[i].analysis.RootScope, protected)
 			collectProtectedMacroletSymbols(expr, files[i].analysis.RootScope, protected)
+			collectProtectedDataTemplateSymbols(expr, files[i].analysis.RootScope, files[i].analysis.RootScope, protected)
 		}
 	}
 	return protected
@@ -890,6 +891,66 @@ func collectMacroletBodySymbols(node *lisp.LVal, scope *analysis.Scope, protecte
 	}
 	for _, child := range node.Cells {
 		collectMacroletBodySymbols(child, scope, protected)
+	}
+}
+
+// collectProtectedDataTemplateSymbols protects the names written in a
+// quasiquote template that stands outside a macro definition.  There the
+// template is evaluated where it stands and its bare symbols come out as data:
+// (let ((tag 2)) (quasiquote (tag (unquote tag)))) is '(tag 2).  A template
+// symbol that happens to be spelled like a binding in scope is not a use of
+// that binding, so the binding keeps its name rather than the datum changing
+// with it.
+func collectProtectedDataTemplateSymbols(node *lisp.LVal, root, scope *analysis.Scope, protected *preservationSet) {
+	if node == nil || root == nil || node.Type != lisp.LSExpr || node.IsQuoted() || len(node.Cells) == 0 {
+		return
+	}
+	if s := findScopeForNode(scope, node); s != nil {
+		scope = s
+	}
+	if node.Cells[0].Type == lisp.LSymbol {
+		switch node.Cells[0].Str {
+		case "defmacro", "macrolet":
+			// handled by the macro-template and macrolet passes
+			return
+		case "quasiquote":
+			if len(node.Cells) > 1 {
+				collectDataTemplateSymbols(node.Cells[1], scope, protected)
+			}
+			return
+		}
+	}
+	for _, child := range node.Cells {
+		collectProtectedDataTemplateSymbols(child, root, scope, protected)
+	}
+}
+
+func collectDataTemplateSymbols(node *lisp.LVal, scope *analysis.Scope, protected *preservationSet) {
+	if node == nil {
+		return
+	}
+	if node.Type == lisp.LSymbol {
+		name := node.Str
+		if name == "" || strings.Contains(name, ":") || strings.HasPrefix(name, "%") {
+			return
+		}
+		if sym := scope.Lookup(name); sym != nil {
+			protected.symbols[sym] = true
+			protected.symbolKeys[symbolLookupKey(sym)] = true
+		}
+		return
+	}
+	if node.Type != lisp.LSExpr {
+		return
+	}
+	if !node.IsQuoted() && len(node.Cells) > 0 && node.Cells[0].Type == lisp.LSymbol {
+		switch node.Cells[0].Str {
+		case "unquote", "unquote-splicing":
+			return
+		}
+	}
+	for _, child := range node.Cells {
+		collectDataTemplateSymbols(child, scope, protected)
 	}
 }
 
